@@ -129,6 +129,10 @@ def c18(prop, tier, verdict):
     # a refill of more than one token per tick: capacity 10, interval 500 ms (5 per tick): partial drain, one tick, burst
     rates += [{'rate': {'cap': 10, 'interval_ms': 500, 'bursts': b, 'waits_ms': w}, 'steps': []}
               for b, w in (([1, 24], [560]), ([3, 20, 20], [540, 20]))]
+    # a limit update on a live plugin that lengthens the refill interval (5 ms -> 100 ms, 2 tokens per tick): the bursts after the first
+    # find only what the NEW refill can have added
+    rates += [{'rate': {'cap': 20, 'interval_ms': 100, 'from': {'cap': 20, 'interval_ms': 5}, 'bursts': b, 'waits_ms': w}, 'steps': []}
+              for b, w in (([30, 30, 30], [100, 100]), ([30, 16, 16, 16], [40, 60, 40]))]
     # concurrent takes: the burst is spread over 8 sessions (8 reader goroutines take tokens at the same moment), small bucket, slow refill
     rates += [{'rate': {'cap': 2, 'interval_ms': 1000, 'bursts': [24], 'waits_ms': [], 'sessions': 8}, 'steps': []} for _ in range(60 if tier == 'thorough' else 30)]
     # the take() interleavings of spec/QpsAtomic.tla on the real bucket: 8 goroutines released from a spin barrier into the plugin's header hook, a fresh bucket of 2 per round
@@ -138,9 +142,10 @@ def c18(prop, tier, verdict):
                              mc_cfg='Overload_mc.cfg', extra_cfg='VIEW view', min_count=3000, nontrivial=lambda s: len(s.get('steps', [])) > 2, extra_scenarios=rates)
     cov['qps_atomic_model'] = 'spec/QpsAtomic.tla: 4 concurrent takers on a bucket of 2 at atomic-operation granularity: %d distinct states, NeverOver holds' % rq['distinct']
     cov['atomic_model'] = 'spec/OverloadAtomic.tla: 3 concurrent take/release threads at atomic-operation granularity, limit 2: %d distinct states, NeverOver holds' % ra['distinct']
-    return 'model_checking', cov, ['connection limit 1..3, histories of at most 7 operations (connect, concurrent burst of 2-3 connects, disconnect, close, raise of the limit), one scenario per transition of the model',
+    return 'model_checking', cov, ['connection limit none / 1..3, histories of at most 7 operations (connect, concurrent burst of 2-3 connects, disconnect, close, raise or first configuration of the limit) on the accepting side over both accept paths, one scenario per transition of the model',
                                    'the interleavings of the limiter\'s atomic operations are model-checked (design level) and exercised by the concurrent bursts, not replayed step by step',
-                                   'rate limit: real ticker (50 ms), bursts of concurrent calls, bound = tokens that can be in the bucket with one tick of slack']
+                                   'rate limit: real ticker (50 ms .. 1 s), bursts of concurrent calls and pushes over 1 or 8 sessions, a live update that lengthens the refill interval, bound = tokens that can be in the bucket with one tick of slack',
+                                   'dialling side: the plugin on a peer that dials over loopback TCP and re-dials lost connections (operations connect, burst, close, raise, blip = connection dropped by the remote end and re-dialled); a remote disconnect that ends a session (failing re-dial) is not among the operations of that path']
 
 def c19(prop, tier, verdict):
     def cl(line, s):
